@@ -14,7 +14,7 @@ func init() {
 	register(&propDef{
 		ID:      "C08",
 		Level:   "other",
-		Explain: "Forwarding-header rules. Sites are found by ROLE in the region of HTTPProxy.ServeHTTP (ServeHTTP, the helpers of package proxy and its sub-packages it calls, their closures), not by function name: a header write is a Set/Add/Del of http.Header on a value that is Request.Header (or a copy / helper parameter passed it), keyed by a constant or by a field of config.Proxy; keys, values and guarding conditions that reach a helper as parameters (setIfAbsent(h, key, value), a bool isTLS) are evaluated per call site; small carrier types of package proxy (a struct carrying the peer address, the host, a secure / websocket flag, the connection state, the header map or a header name from one step to the next) are followed field-sensitively by type and field (every store to that field; for a negative verdict no instance built without it); a write in a loop over a literal table of {key, value} rows is instantiated per row; text assembled in a strings.Builder derives from what is written into it. (A1) the authoritative headers (configured client-IP header, configured TLS header) are written with Set, under no condition that depends on a header the client sent (conditions under which the request is not forwarded at all do not count), with a value derived only from RemoteAddr / r.TLS / configuration; the TLS header is Set on the r.TLS != nil edge and Del'd on the other edge or unconditionally in front of the Set (exhaustive); (A2) the default-if-absent headers (X-Real-Ip, X-Forwarded-Proto/-Port/-Host) are written only where Get(sameKey) == \"\" is known and their values derive from the connection (net.SplitHostPort of RemoteAddr) or the request's Host (net.SplitHostPort of Request.Host for the port); (O1) in no function of the region can a store to r.Host (direct or inside a helper) be followed by the derivation of X-Forwarded-Host/-Port/Forwarded (direct or inside a helper): they must describe the host the client asked for, also for host= routes; (X1) every test of the Upgrade header in package proxy compares against the same constant set (==, switch, slices.Contains, a predicate on the value), the X-Forwarded-For write is control dependent on the Upgrade header, and every production of the ws/wss scheme (returned, merged, stored, concatenated, or looked up in a package-level table) is control dependent on it - in the producing function or, for a connScheme(websocket, secure bool) that is told, through what every caller passes - or at least its function goes through such a test; (X2) the value Set as X-Forwarded-For ends with the peer (last operand of the concatenation / strings.Join(append(prior, peer)) / Sprintf / helper result); (S1) Strict-Transport-Security is written only where r.TLS != nil is known, on the response; (R1) the request-id header is Set from the generator under no client-dependent condition; (P1) nothing in package proxy separates host and port of Request.Host / RemoteAddr with a bare ':' search (IPv6 literals) - net.SplitHostPort is used; (X3) the X-Forwarded-For write and the choice of the raw tunnel (code that hijacks the connection, found by role) are control dependent on the same request header (Upgrade only); (A3) the for= element fabio itself puts into Forwarded (\"for=\"+x, Sprintf(\"for=%s\"), else the whole value written) derives from RemoteAddr and from no client header. Not decided: the textual format of Forwarded and of the port/protocol values (string contents).",
+		Explain: "Forwarding-header rules. Sites are found by ROLE in the region of HTTPProxy.ServeHTTP (ServeHTTP, the helpers of package proxy and its sub-packages it calls, their closures), not by function name: a header write is a Set/Add/Del of http.Header on a value that is Request.Header (or a copy / helper parameter passed it), keyed by a constant or by a field of config.Proxy; keys, values and guarding conditions that reach a helper as parameters (setIfAbsent(h, key, value), a bool isTLS) are evaluated per call site; small carrier types of package proxy (a struct carrying the peer address, the host, a secure / websocket flag, the connection state, the header map or a header name from one step to the next) are followed field-sensitively by type and field (every store to that field; for a negative verdict no instance built without it); a write in a loop over a table of {key, value} rows (a slice / array literal of structs or [2]string, grown with append, merged, returned by a helper or handed to the looping helper, or a map literal ranged over) is instantiated per row, its value taken from the same row; text assembled in a strings.Builder derives from what is written into it. (A1) the authoritative headers (configured client-IP header, configured TLS header) are written with Set, under no condition that depends on a header the client sent (conditions under which the request is not forwarded at all do not count), with a value derived only from RemoteAddr / r.TLS / configuration; the TLS header is Set on the r.TLS != nil edge and Del'd on the other edge or unconditionally in front of the Set (exhaustive); (A2) the default-if-absent headers (X-Real-Ip, X-Forwarded-Proto/-Port/-Host) are written only where Get(sameKey) == \"\" is known and their values derive from the connection (net.SplitHostPort of RemoteAddr) or the request's Host (net.SplitHostPort of Request.Host for the port); (O1) in no function of the region can a store to r.Host (direct or inside a helper) be followed by the derivation of X-Forwarded-Host/-Port/Forwarded (direct or inside a helper): they must describe the host the client asked for, also for host= routes; (X1) every test of the Upgrade header in package proxy compares against the same constant set (==, switch, slices.Contains, a predicate on the value), the X-Forwarded-For write is control dependent on the Upgrade header, and every production of the ws/wss scheme (returned, merged, stored, concatenated, or looked up in a package-level table) is control dependent on it - in the producing function or, for a connScheme(websocket, secure bool) that is told, through what every caller passes - or at least its function goes through such a test; (X2) the value Set as X-Forwarded-For ends with the peer (last operand of the concatenation / strings.Join(append(prior, peer)) / Sprintf / helper result); (S1) Strict-Transport-Security is written only where r.TLS != nil is known, on the response; (R1) the request-id header is Set from the generator under no client-dependent condition; (P1) nothing in package proxy separates host and port of Request.Host / RemoteAddr with a bare ':' search (IPv6 literals) - net.SplitHostPort is used; (X3) the X-Forwarded-For write and the choice of the raw tunnel (code that hijacks the connection, found by role) are control dependent on the same request header (Upgrade only); (A3) the for= element fabio itself puts into Forwarded (\"for=\"+x, Sprintf(\"for=%s\"), else the whole value written) derives from RemoteAddr and from no client header. Not decided: the textual format of Forwarded and of the port/protocol values (string contents).",
 		Run:     runC08,
 		Trusted: []string{"net/http sets Request.RemoteAddr to the peer's ip:port and Request.TLS iff the connection used TLS", "httputil.ReverseProxy appends the peer address to X-Forwarded-For for non-upgrade requests"},
 		Mutants: []mutant{
